@@ -30,7 +30,7 @@ Replay ==
        [] E.op = "brif"     -> Branch(E.seq, E.pos, E.d, TRUE)
 
 NoSigma == [func |-> <<>>, table |-> <<>>, memory |-> <<>>, global |-> <<>>, elem |-> <<>>, data |-> <<>>]
-Ctx == [inlocals |-> AbsLocals, outlocals |-> H.outlocals, nparams |-> 1]
+Ctx == [inlocals |-> AbsLocals, outlocals |-> H.outlocals, nparams |-> 2]
 
 RECURSIVE MatchFrom(_, _, _, _)
 MatchFrom(exp, out, i, lm) ==
